@@ -1,16 +1,20 @@
 (* Prop_C14.v -- C14: DCOP YAML files round-trip and load faithfully.
-   Only statements; each closed by an exact lemma from P_Yaml.
+   Only statements; each closed by an exact lemma from P_Yaml / P_Yaml2.
 
-   FULL STATEMENT of the property about the model (not proved as one theorem):
+   FULL STATEMENT of the property about the model, proved below as [yaml_roundtrip]:
      forall d, wf d -> exists t l, to_tree d = Ok t /\ of_tree t = Ok l /\ equiv d l
-   where equiv = same domains, same variables (domain, initial value), every constraint has the
-   same value on every assignment, every agent has the same capacity, route() and hosting_cost().
-   Proved below: the extensional-constraint part at full strength (any arity, any domain sizes,
-   any table), the text encoding of assignments, and the multi-file statement.  NOT proved (rests
-   on the correspondence run only): domains/variables/agents sections (routes, hosting costs,
-   capacity), the assembly into of_tree (to_tree d), invariance under PyYAML's key sorting,
-   evaluation of expression constraints (Python eval is outside the model). *)
-From PyDcop Require Import Base M_AgentDef M_Yaml P_Yaml.
+   where equiv = same name/objective, same domains, same variables (domain, initial value), every
+   table constraint has the same value on every assignment and every expression constraint the
+   same expression text, every agent has the same capacity, route() and hosting_cost(); wf is the
+   explicit expressibility predicate (P_Yaml2.wf, each conjunct justified in design_notes/C14.md).
+   The per-section theorems (domains / variables / constraints / agents) are kept as separate
+   obligations, and [yaml_roundtrip_files] extends the result to a document split into several
+   files with its top-level sections in any order.
+   NOT in the model (rests on the correspondence run only): PyYAML's text layer, evaluation of
+   expression constraints (Python eval); invariance under PyYAML's key sorting is proved for the
+   routes mapping and the constraint "values" mapping (both proofs are order independent), the
+   other mappings are loaded entry by entry by an order-preserving map. *)
+From PyDcop Require Import Base M_AgentDef M_Yaml P_Yaml P_Yaml2.
 
 (* Loading several files = loading the concatenation of their sections (a later section with
    the same top-level key replaces an earlier one). *)
@@ -59,3 +63,121 @@ Example c14_nonvacuous :
   ext_wf dims table /\
   ext_values dims table = Ok [(5, AStr "1 a | 2 b"); (7, AStr "2 a | 1 b")].
 Proof. exact c14_nonvacuous_l. Qed.
+
+(* ---------------------------------------------------------------------------------------- *)
+(* Deepening: the remaining sections and the whole DCOP                                      *)
+(* ---------------------------------------------------------------------------------------- *)
+Local Open Scope string_scope.
+
+(* domains: _build_domains (_yaml_domains ds) gives back every domain (name, type, values, in
+   order).  Guard: names unique (dcop.domains is a dict keyed by name); no one-value domain whose
+   value is a str containing ".." (read as a range). *)
+Theorem domains_roundtrip : forall ds,
+  NoDup (map d_name ds) -> Forall dotdot_free ds ->
+  mapM build_domain (yaml_domains ds) = Ok (named_doms ds).
+Proof. exact domains_roundtrip_l. Qed.
+
+(* variables: _build_variables (_yaml_variables vs) gives back every variable with its domain
+   object and initial value (incl. falsy ones: 0, "").  Guard: names unique; every variable's
+   domain is one of dcop.domains; an initial value belongs to the domain. *)
+Theorem variables_roundtrip : forall ds vs,
+  NoDup (map d_name ds) -> NoDup (map v_name vs) -> Forall (var_ok ds) vs ->
+  mapM (build_variable (named_doms ds)) (yaml_variables vs) = Ok (named_vars vs).
+Proof. exact variables_roundtrip_l. Qed.
+
+(* constraints: _yaml_constraints succeeds and _build_constraints of what it wrote gives, name by
+   name and in order, an equivalent constraint (cons_equiv: same expression text / same scope and
+   the original value at every position of the matrix).  Guard: names unique; for a table
+   constraint ext_wf (see extensional_table_roundtrip), scope variables are variables of the DCOP
+   and have non-empty domains. *)
+Theorem constraints_roundtrip : forall vs cs,
+  NoDup (map v_name vs) -> NoDup (map c_name cs) -> Forall (cons_ok vs) cs ->
+  exists ycs lcs, yaml_constraints cs = Ok ycs /\
+    mapM (build_constraint (named_vars vs)) ycs = Ok lcs /\ Forall2 cons_rel cs lcs.
+Proof. exact constraints_roundtrip_l. Qed.
+
+(* "the same value on every assignment", stated on assignments (lists of domain values) rather
+   than matrix positions *)
+Theorem constraint_values_preserved : forall n dims table m a,
+  ext_wf dims table -> cons_equiv (CExt n dims table) (LExt dims m) ->
+  in_doms a (dim_values dims) ->
+  exists c, rel_value dims table a = Ok c /\ lrel_value dims m a = Some (Some c).
+Proof. exact cons_equiv_values. Qed.
+
+(* agents: for ANY tree whose agents / routes / hosting_costs sections are what yaml_agents
+   writes, _build_agents succeeds and gives, agent by agent and in order, an agent with the same
+   name, the same capacity, the same route() to every name and the same hosting_cost() for every
+   computation name (agent_rel).  Guard agents_wf: names unique, none called "default", a single
+   default route, route tables symmetric and between agents of the DCOP, tables are dicts. *)
+Theorem agents_roundtrip : forall ags t,
+  agents_wf ags ->
+  agents_list t = yaml_agents_agents ags ->
+  olist (y_routes t) = yaml_agents_routes ags ->
+  olist (y_hosting t) = yaml_agents_hosting ags ->
+  exists las, build_agents t = Ok las /\ Forall2 agent_rel ags las.
+Proof. exact agents_roundtrip_l. Qed.
+
+(* the loader's routes loop is independent of the order of the "routes" mapping (so PyYAML's
+   key sorting is harmless): for any list of entries with unique keys that are either the default
+   or an agent's symmetric table, it succeeds and the pair-keyed dict holds exactly the tables *)
+Theorem routes_load_order_independent :
+  forall (AL : list (string * list (string * Z))) (Rt : string -> string -> Z -> Prop),
+  (forall a b c, Rt a b c -> Rt b a c) ->
+  (forall a b c c', Rt a b c -> Rt a b c' -> c = c') ->
+  (forall a b c, Rt a b c -> mem_key String.eqb b AL = true) ->
+  forall dr ys dr0 R0,
+  NoDup (map fst ys) ->
+  (forall k y, In (k, y) ys -> rentry_ok AL Rt dr k y) ->
+  (forall a b c, plookup (a, b) R0 = Some c -> ~ In a (map fst ys) /\ Rt a b c) ->
+  NoDup (map fst R0) ->
+  exists dr1 R, foldM (routes_step AL) ys (dr0, R0) = Ok (dr1, R) /\ NoDup (map fst R) /\
+    (In default_s (map fst ys) -> dr1 = dr) /\ (~ In default_s (map fst ys) -> dr1 = dr0) /\
+    forall a b c, plookup (a, b) R = Some c <->
+      plookup (a, b) R0 = Some c \/ exists tb, In (a, YRTable tb) ys /\ In (b, c) tb.
+Proof. exact routes_fold_ok. Qed.
+
+(* THE PROPERTY: every expressible DCOP is written, read back, and the result is equivalent *)
+Theorem yaml_roundtrip : forall d, wf d ->
+  exists t l, to_tree d = Ok t /\ of_tree t = Ok l /\ equiv d l.
+Proof. exact yaml_roundtrip_l. Qed.
+
+(* several files, as a real statement: if the top-level sections of a document are distributed
+   over files in any order (their concatenation is a permutation of the document's sections),
+   loading the files is loading the document *)
+Theorem multi_file_split : forall t files,
+  Permutation.Permutation (List.concat files) (sections_of t) -> load_files files = of_tree t.
+Proof. exact multi_file_split_l. Qed.
+
+Theorem yaml_roundtrip_files : forall d, wf d ->
+  exists t l, to_tree d = Ok t /\ equiv d l /\
+    forall files, Permutation.Permutation (List.concat files) (sections_of t) ->
+                  load_files files = Ok l.
+Proof. exact yaml_roundtrip_files_l. Qed.
+
+(* two conjuncts of wf are necessary.  (1) one default route for all agents: *)
+Theorem default_route_guard_refuted : exists d t l,
+  to_tree d = Ok t /\ of_tree t = Ok l /\
+  exists a e o, In a (dc_agents d) /\ In e (l_agents l) /\ fst e = a_name a /\
+                route (snd e) o <> route a o.
+Proof. exact default_route_guard_refuted_l. Qed.
+
+(* (2) every variable's domain is one of dcop.domains (the file is written; loading raises
+   KeyError).  DCOP.add_variable now registers the domain, see design_notes/C14.md *)
+Theorem unregistered_domain_guard_refuted : exists d t,
+  to_tree d = Ok t /\ of_tree t = Err EKey.
+Proof. exact unregistered_domain_guard_refuted_l. Qed.
+
+(* non-vacuity of yaml_roundtrip: a DCOP with two domains, three variables (falsy-free and with
+   initial values), a table and an expression constraint, two agents with capacity, symmetric
+   routes, default and specific hosting costs is well formed; what it loads back to *)
+Example c14_roundtrip_nonvacuous :
+  wf ex_dcop /\
+  bind (to_tree ex_dcop) of_tree =
+  Ok (mkLoaded "t1" "max" [("d1", ex_d1); ("d2", ex_d2)]
+        [("v1", ex_v1); ("v2", ex_v2); ("v3", ex_v3)]
+        [("c1", LExt [ex_v1; ex_v2]
+                  [([0;0]%nat, Some 5); ([0;1]%nat, Some 7); ([1;0]%nat, Some 7); ([1;1]%nat, Some 5)]);
+         ("c2", LInt "v1 + v3")]
+        [("a1", mkAgent "a1" 3 [("a2", 7)] 0 [] [("capacity", 10)]);
+         ("a2", mkAgent "a2" 3 [("a1", 7)] 5 [("v1", 2)] [])]).
+Proof. exact (conj ex_dcop_wf ex_dcop_loaded). Qed.
